@@ -329,7 +329,43 @@ def r12d(P, R):
             "print_fragment_runtime does not filter the fragment itself from the closure", loc=fr_rt.loc())
 
 
-RULES = [("R12-a", r12a), ("R12-b", r12b), ("R12-c", r12c), ("R12-d", r12d)]
+def r12e(P, R):
+    """lossless traversal: no early exit from the traversal loops, no filtering/reordering adaptor on AST data"""
+    from templates import LOSSY_OR_REORDERING
+    rec = P.fn("utils::fragment_names_in_selection_set::rec")
+    rets = [n for n in rec.walk() if n.get("k") == "Ret"]
+    brks = [n for n in rec.walk() if n.get("k") == "Break" and "desugar" not in (n.get("x") or "")]
+    R.check("R12-e", "closure:no-early-exit", not rets and not brks,
+            "the fragment-closure loop visits every selection (only `continue` skips one)",
+            "fragment_names_in_selection_set::rec leaves the loop over selections early (%d return, %d break): "
+            "later sibling selections are never scanned, so fragments spread only there are missing from the document"
+            % (len(rets), len(brks)), loc=rec.loc())
+    scope = json_scope(P)
+    n = 0
+    for p in scope:
+        f = P.fns[p]
+        for c in f.walk():
+            if c.get("k") == "MethodCall":
+                n += 1
+                if c["method"] in LOSSY_OR_REORDERING:
+                    R.violated("R12-e", "lossy:%s:%s" % (short(f.path), c["method"]),
+                               "%s applies `%s` while printing: a component of the source document can be dropped or reordered"
+                               % (f.path, c["method"]), loc=f.loc())
+        exits = [x for x in f.walk() if x.get("k") == "Break" and "desugar" not in (x.get("x") or "")]
+        if exits:
+            R.violated("R12-e", "early-break:" + short(f.path), "%s breaks out of a printing loop" % f.path, loc=f.loc())
+    R.holds("R12-e", "lossy:none", "%d method calls in %d JSON-printer functions, none filters/reorders" % (n, len(scope)))
+    R.floor("R12-e", "method calls inspected", n, 80)
+    # the runtime printers: exactly one filter (the self-filter of print_fragment_runtime, checked in R12-d)
+    for name, allowed in (("print_operation_runtime", 0), ("print_fragment_runtime", 1)):
+        f = P.fn("operation_js_printer::printers::" + name)
+        lossy = [c["method"] for c in f.walk() if c.get("k") == "MethodCall" and c["method"] in LOSSY_OR_REORDERING]
+        R.check("R12-e", "runtime-lossy:" + name, len(lossy) == allowed,
+                "no unexpected filtering of the fragment closure",
+                "%s applies %s to the fragment closure (expected %d such adaptor)" % (f.path, lossy, allowed), loc=f.loc())
+
+
+RULES = [("R12-e", r12e), ("R12-a", r12a), ("R12-b", r12b), ("R12-c", r12c), ("R12-d", r12d)]
 
 EXPLANATION = (
     "Static structural necessary conditions for C12 decided on the type-checked program: (R12-a) every "
